@@ -517,6 +517,54 @@ def r05_7(prog, rep):
                 rep.fail(rid, key, f.loc(nn.get("line", line)), "the calendar-level %s overwrites the event's unconditionally" % m1.group(2))
     if n < 4:
         rep.broken_("rule=R05.7 expected >=4 default copies at END:VEVENT, found %d" % n)
+    # a field the prologue may set reaches the event through the copy `ve.t = globve.t` at BEGIN:VEVENT; the event's own line for that
+    # field is then parsed by snarf_fld() *onto* the calendar's value — it must replace it, so the event-level case of a field that
+    # snarf_pro() delegates must not be "the first one wins"
+    pro, fldf = prog.fn("snarf_pro", "evical.c"), prog.fn("snarf_fld", "evical.c")
+    fpar_p = [p_["n"] for p_ in pro.params if "fld" in (p_.get("t") or "")]
+    fpar_f = [p_["n"] for p_ in fldf.params if "fld" in (p_.get("t") or "")]
+    en = prog.enum(having="FLD_SHELL")
+    if not fpar_p or not fpar_f or not en:
+        raise AnalysisBroken("R05.7: field discriminant of snarf_pro/snarf_fld not found")
+    nd = 0
+    for name, val in en["enumerators"]:
+        got = []
+
+        def eff(b, i, x, store, _g=got):
+            for c in calls(x):
+                if c.get("fn") == fldf.name:
+                    _g.append(1)
+            return None
+        AbsWalk(pro, {fpar_p[0]}, init={fpar_p[0]: val}, effect=eff).run()
+        if not got:
+            continue
+        nd += 1
+        vep = fldf.params[0]["n"]
+
+        def stores_for(init):
+            st = set()
+
+            def eff2(b, i, x, store, _s=st):
+                for l, kind, nn in writes(x):
+                    t = lv(l)
+                    if t.startswith(vep + "->t.") or t.startswith(vep + "[0].t.") or t.startswith("(*%s).t." % vep):
+                        _s.add(t)
+                return None
+            ini = {fpar_f[0]: val}
+            ini.update(init)
+            AbsWalk(fldf, set(ini), init=ini, effect=eff2, max_states=100000).run()
+            return st
+        free = stores_for({})
+        key = "snarf_fld/%s-overrides-calendar-default" % name
+        firstwins = sorted(t for t in free if t not in stores_for({t: 1000}))
+        if firstwins:
+            rep.fail(rid, key, fldf.loc(), "snarf_pro() accepts %s at calendar level, and BEGIN:VEVENT copies the calendar's task into the event; the event's own "
+                     "%s is then dropped because %s is already set (`first one wins`): a calendar-wide default shadows the event's value" % (
+                         name, name, ", ".join(firstwins)))
+        else:
+            rep.ok(rid, key, fldf.loc(), "the event-level %s replaces a calendar-level default (%s)" % (name, ", ".join(sorted(free)) or "no store"), nontrivial=False)
+    if nd < 3:
+        rep.broken_("rule=R05.7 expected >=3 fields delegated by snarf_pro to snarf_fld, found %d" % nd)
 
 
 def run(prog, rep, tier, snap):
@@ -530,6 +578,7 @@ def run(prog, rep, tier, snap):
     rep.rule("R05.4", "sentinel encodings of umask and max-simul round-trip over the whole field domain", 8)
     rep.call(encodings.r05_4, prog, rep)
     rep.call(r05_4b, prog, rep)
+    rep.call(encodings.r05_4c, prog, rep)
     rep.rule("R05.5", "every freed/cloned sub-stream is serialised", 3)
     rep.call(r05_5, prog, rep)
     rep.rule("R05.7", "calendar-level defaults fill only what the event leaves unset", 4)
